@@ -261,10 +261,36 @@ def retamper_history(rng):
                     {"op": "set", "n": victim, "c": c}, dict(b), dict(b)], "sources": [101]}
 
 
+def optdep_history(rng):
+    """a dependency leaves the task and comes back although the module source never changes (the list of
+    dependencies is computed at import time); in between the task runs without it (F28: the row of the
+    departed dependency used to survive and to match again)"""
+    def tk(i, deps, prods, opt=None):
+        return {"id": i, "module": 1, "deps": deps, "prods": prods, "mver": 0, "skip": False, "skipifs": [], "persist": False, "prio": 0,
+                "marks": [], "attrs": [], "after_fn": [], "after_expr": None, "use_decorator": bool(opt), "opt": opt or []}
+    two = rng.random() < 0.5
+    def proj(on):
+        ts = [tk(1, [101] + ([102] if on else []), [111], opt=[102]), tk(2, [111], [112])]
+        if two:
+            ts.append(tk(3, [112] + ([101] if on else []), [113], opt=[101]))
+        return ts
+    cfg = {"force": False, "dry_run": False, "max_failures": None, "expression": "", "marker_expression": "", "capture": "no"}
+    def b(on):
+        return {"op": "build", "tasks": proj(on), "cfg": dict(cfg), "faults": {}}
+    ops = [{"op": "set", "n": 101, "c": rng.randint(1, 50)}, {"op": "set", "n": 102, "c": rng.randint(1, 50)}, b(True)]
+    ops += [{"op": "set", "n": 101, "c": rng.randint(51, 99)}, b(False)]
+    if rng.random() < 0.5:
+        ops += [b(False)]
+    if rng.random() < 0.3:
+        ops += [{"op": "set", "n": 102, "c": rng.randint(51, 99)}]
+    ops += [b(True), b(True)]
+    return {"ops": ops, "sources": [101, 102]}
+
+
 for k in ("C02", "C03", "C04"):
     OPTS[k]["templates"] = [outofstep_history]
 for k in ("C02", "C03"):
-    OPTS[k]["templates"] = OPTS[k]["templates"] + [retamper_history]
+    OPTS[k]["templates"] = OPTS[k]["templates"] + [retamper_history, optdep_history]
     OPTS[k]["ntemplates"] = 6
 for k in ("C04", "C01", "C08"):
     OPTS[k]["templates"] = OPTS[k].get("templates", []) + [mem_history]
